@@ -57,7 +57,7 @@ impl OpSource for ListSource {
 }
 
 fn family(rng: &mut Rng, k: u64) -> (String, Vec<String>) {
-    match k % 9 {
+    match k % 10 {
         0 => ("same-6-prefix".into(), (0..60 + rng.below(200)).map(|i| format!("longfilename{}.txt", i)).collect()),
         1 => {
             let n = 14 + rng.usize_below(8);
@@ -71,6 +71,21 @@ fn family(rng: &mut Rng, k: u64) -> (String, Vec<String>) {
                 .map(String::from)
                 .collect(),
         ),
+        8 => {
+            // long names that themselves contain "~N" right where a generated alias has it
+            let mut v: Vec<String> = Vec::new();
+            for base in ["report", "holida", "textfi", "ab"] {
+                v.push(format!("{} card.txt", base));
+                for k in 1..=5 {
+                    v.push(format!("{}~{} backup.txt", base.to_uppercase(), k));
+                    v.push(format!("{}~{}.old.txt", base, k));
+                }
+                v.push(format!("{} second card.txt", base));
+                v.push(format!("{}~1.txt", base.to_uppercase()));
+                v.push(format!("{} third.txt", base));
+            }
+            ("tilde-in-long-name".into(), v)
+        }
         3 => (
             "dots-spaces-empty-base".into(),
             vec![".bashrc", "...", ". .", " a", "a .txt", ".a.b", "..x", ". ", "..a..", "a.", "a..", ".....txt", " . . ", ".x", ".y", ".z", ".profile", ".bash_profile", ".bash_logout"].into_iter().map(String::from).collect(),
